@@ -52,3 +52,6 @@ Example C16_example :
   txn_status {| tr_table_len := 1; tr_table_known := true; tr_ops := [TPut 0 5; TRange 1 0] |} = SFailedPrecondition /\
   txn_status {| tr_table_len := 1; tr_table_known := true; tr_ops := [TPut 3 5; TDel 2 0; TUnset] |} = SOk.
 Proof. vm_compute. split; reflexivity. Qed.
+
+(* every remaining property theorem of this file *)
+Print Assumptions C16_delete_limits.
